@@ -85,6 +85,25 @@ CHECKS = {
             "arguments untouched; project up/down inverses; perturb_params within (also negative) bounds without touching its arguments.",
             "optimisers are black boxes (no optimality claim); starts exactly on a bound are moved 1e-9 inside for log-parameter "
             "optimisers (exp(log x) round trip); lower bounds of the synthetic models are never None", "DESIGN.md §2 C12"),
+    "C13": ("differential monitor at Misc.make_data_dict_vcf/make_data_dict/fragment_data_dict/bootstraps_from_dd_chunks, Spectrum.from_data_dict and the spectrum statistics against VCF-free counting from a generated genotype matrix (O-genotype)",
+            "Synthetic VCF+popinfo (1-3 populations, missing calls, filters, multi-character/non-ACGT/lower-case alleles, AA variants, "
+            "duplicate positions, chromosome names with _ and ., plain/gz/zip) and the legacy SNP format: dictionary entries, polarised and "
+            "folded spectra under several projections, totals = usable SNPs, chunk partition and additivity, bootstraps = integer "
+            "combinations of chunk spectra, exact subsample sizes, S/pi/Watterson/Tajima D/Fst/theta_L vs textbook formulas from the "
+            "genotype matrix, pi invariant under projection.",
+            "missing data expressed as ./. only; positions on more than one line are not judged under subsampling", "DESIGN.md §2 C13"),
+    "C18": ("invariant monitors on LowPass partition/matrix functions (brute-force enumeration, row-stochasticity, unit-interval) and on corrected models (closure properties, deep-coverage limit)",
+            "Partitions for n<=16 against itertools enumeration with Hardy-Weinberg weights; projection and calling-error matrices "
+            "row-stochastic, non-negative and mean-preserving with and without inbreeding, continuous as F->0; no-call and "
+            "enough-covered probabilities in [0,1]; corrected two_epoch/three_epoch/split_mig/3-D models never have more sites, and "
+            "equal the plain projection at deep coverage, in analytic and simulated regimes.",
+            "simulated regime: only exact closure properties are asserted", "DESIGN.md §2 C18"),
+    "C19": ("differential monitors at Godambe.get_hess/get_grad (exactness on quadratics/linears) and at the information statistics (closed forms for Poisson models linear in parameters), plus a history checker against fresh interpreters",
+            "Random quadratics/linears with zero, tiny and negative parameters (one-sided stencils); H, J, cU against closed forms to O(eps^2); "
+            "every statistic equals its defining algebra on the code's own matrices and converges at second order when eps is halved; "
+            "bootstrap-order independence; interleavings of 2-12 Godambe calls sharing the module cache compared call by call with a "
+            "fresh interpreter; sum_chi2_ppf on scalars, arrays and lists against scipy.",
+            "tolerances carry the stated round-off terms (eps_mach*|f|/h^2 amplified by conditioning)", "DESIGN.md §2 C19"),
     "C14": ("round-trip monitor over Spectrum.to_file/from_file (plain, gz, old format), Numerics.array_to_file/array_from_file and every pickle protocol",
             "Random 1-5-D spectra incl. singleton axes, 1e-300..1e300, inf/nan, masks, folding, labels with spaces, 0-5 comments, "
             "precision 16-20: written with the real writers into scratch files and read back with the real readers; shape, mask, "
